@@ -18,7 +18,7 @@
 (* and that all leaves of the tree are reached.                            *)
 (*                                                                         *)
 (* The C driver materialises the same recipes (gen_shape: lin, linrev,     *)
-(* few, out, spread) and runs the real encoder; losslessness is decided by *)
+(* few, out, spread, lindup) and runs the real encoder; losslessness is decided by *)
 (* StoreTrace on the real values.  The predicted leaf is compared with the *)
 (* encoder's reported choice only as coverage information (a different but *)
 (* lossless selector is not a violation of C06).                           *)
@@ -42,6 +42,8 @@ Vals(r) ==
     [] sh = "out" ->
          [i \in 1..n |-> IF i - 1 >= 1 /\ i - 1 <= p1 /\ i - 1 < n
                          THEN p4 + p3 ELSE p4 + ((i - 1) % (p2 + 1))]
+    [] sh = "lindup" ->
+         [i \in 1..n |-> IF p1 >= 1 /\ i = p1 + 1 THEN p2 + (i - 2) * p3 ELSE p2 + (i - 1) * p3]
     [] sh = "spread" ->
          [i \in 1..n |-> IF n > 1 /\ i = 1 THEN p2 + p1
                          ELSE IF n > 1 /\ i = 2 THEN p2 ELSE p2 + (i - 1) * p1]
@@ -126,6 +128,11 @@ Edges ==
    <<"max=65536 sparse", R("lin", 3300, -1, 0, 19, 2855), "DELTA_ABS">>,
    \* bitmap: all unique
    <<"dup last", R("lin", 50, -1, 100, 1, -1), "DELTA_REL">>,
+   \* one repeated value at the front / in the middle of otherwise bitmap-worthy data
+   <<"dup first", R("lindup", 50, 1, 0, 1, 0), "DELTA_ABS">>,
+   <<"dup first", R("lindup", 50, 1, 100, 1, 0), "DELTA_REL">>,
+   <<"dup second", R("lindup", 50, 2, 0, 1, 0), "DELTA_ABS">>,
+   <<"dup middle", R("lindup", 50, 25, 100, 2, 0), "DELTA_REL">>,
    <<"dup last", R("lin", 50, -1, 0, 1, -1), "DELTA_ABS">>,
    \* bitmap: order
    <<"descending", R("linrev", 50, -1, 100, 1, 0), "DELTA_REL">>,
